@@ -269,7 +269,7 @@ fn gen_ipc_batches(rng: &mut Rng) -> (SchemaRef, Vec<RecordBatch>) {
     let schema = Arc::new(Schema::new(fields));
     let mut batches = vec![];
     for _ in 0..nb {
-        let n = *rng.pick(&[0usize, 0, 1, 2, 3, 5, 9]);
+        let n = *rng.pick(&[0usize, 0, 1, 2, 3, 5, 9, 9, 64, 65, 300]);
         batches.push(RecordBatch::try_new(schema.clone(), mk(rng, n)).unwrap());
     }
     (schema, batches)
@@ -390,7 +390,10 @@ fn ipc_oracles(data: &[u8], sizes: &[usize], given: &Outcome, fails: &mut Vec<(S
     if single.batches != pull.batches || ok_push != ok_pull || (ok_push && single.schema != pull.schema) {
         // the pull reader ignores bytes after the EOS marker (it stops reading); not a row difference
         let trailing_only = single.batches == pull.batches && single.verdict == "ERR:decode:ipc" && ok_pull && single.schema == pull.schema;
-        if !trailing_only {
+        // the pull reader cannot even be constructed without a leading schema message; the push decoder
+        // in that situation has delivered nothing and knows no schema either (API difference, no rows)
+        let no_schema = pull.verdict.starts_with("ERR:open") && single.schema.is_none() && single.batches.is_empty();
+        if !trailing_only && !no_schema {
             fails.push((format!("push {} != pull {}", single.short(), pull.short()), "oracle:push-vs-pull".into()));
         }
     }
@@ -730,6 +733,8 @@ fn json_push_inner(mode: &str, batch_size: usize, chunks: &[&[u8]]) -> Outcome {
             }
         }
     }
+    // state observable through the public accessors before the last flush
+    let extra = format!(";len={};partial={};empty={}", d.len(), d.has_partial_record() as u8, d.is_empty() as u8);
     let verdict = match d.flush() {
         Ok(Some(b)) => {
             batches.push(b);
@@ -738,7 +743,7 @@ fn json_push_inner(mode: &str, batch_size: usize, chunks: &[&[u8]]) -> Outcome {
         Ok(None) => "ok",
         Err(_) => "ERR:flush",
     };
-    Outcome { batches, schema: None, verdict: verdict.into() }
+    Outcome { batches, schema: None, verdict: format!("{}{}", verdict, extra) }
 }
 
 fn json_pull(mode: &str, batch_size: usize, chunks: Vec<&[u8]>) -> Outcome {
@@ -762,7 +767,7 @@ fn json_pull_inner(mode: &str, batch_size: usize, chunks: Vec<&[u8]>) -> Outcome
 }
 
 fn json_answer(mode: &str, o: &Outcome) -> String {
-    let mut s = format!("rows={} r={}", show_list(&o.rows()), o.verdict);
+    let mut s = format!("rows={} r={}", show_list(&o.rows()), o.verdict.split(';').next().unwrap());
     if mode != "s" {
         // the decoded values themselves: hex of each string, `N` for null
         let mut vals = vec![];
@@ -778,7 +783,7 @@ fn json_answer(mode: &str, o: &Outcome) -> String {
 }
 
 fn same_ok_class(a: &str, b: &str) -> bool {
-    (a == "ok") == (b == "ok")
+    (a.split(';').next() == Some("ok")) == (b.split(';').next() == Some("ok"))
 }
 
 fn run_json(t: &[&str], fails: &mut Vec<(String, String)>) -> String {
@@ -829,6 +834,11 @@ fn run_json(t: &[&str], fails: &mut Vec<(String, String)>) -> String {
 
 fn json_string(rng: &mut Rng, out: &mut Vec<u8>) {
     out.push(b'"');
+    if rng.chance(1, 6) {
+        // a long plain run: crosses the 16/32/64 byte blocks of the memchr scan
+        let n = *rng.pick(&[15usize, 16, 17, 31, 32, 33, 64, 100]);
+        out.extend(std::iter::repeat(b'q').take(n));
+    }
     for _ in 0..rng.usize(5) {
         match rng.below(12) {
             0 => out.extend_from_slice(b"\\n"),
@@ -1004,6 +1014,67 @@ fn gen_json(rng: &mut Rng) -> (String, String) {
     (format!("C14 json {} {} {} {}", mode, bs, hex(&out), show_list(&sizes)), tags.join(" "))
 }
 
+/// fixed block of JSON boundary documents (same in every run): scan lengths around 8/16/32/64
+/// (memchr / SIMD block sizes), escapes right after such runs, long whitespace and number runs,
+/// nesting deeper than the initial stack capacity, many keys, every literal / escape kind
+fn json_fixed_block() -> Vec<(String, String)> {
+    let mut docs: Vec<(&str, Vec<u8>)> = vec![];
+    for n in [7usize, 8, 9, 15, 16, 17, 31, 32, 33, 63, 64, 65, 130] {
+        let mut d = vec![b'"'];
+        d.extend(std::iter::repeat(b'a').take(n));
+        d.extend_from_slice(b"\"\n");
+        docs.push(("v", d));
+        let mut d = vec![b'"'];
+        d.extend(std::iter::repeat(b'b').take(n));
+        d.extend_from_slice(b"\\n");
+        d.extend(std::iter::repeat(b'c').take(n));
+        d.extend_from_slice(b"\\ud83d\\ude00\" ");
+        docs.push(("v", d));
+        let mut d = vec![];
+        d.extend(std::iter::repeat(b' ').take(n));
+        d.extend_from_slice(b"1");
+        d.extend(std::iter::repeat(b'7').take(n));
+        d.extend(std::iter::repeat(b'\n').take(n));
+        d.extend_from_slice(b"null");
+        docs.push(("v", d));
+    }
+    let mut deep = vec![];
+    deep.extend(std::iter::repeat(b'[').take(14));
+    deep.extend_from_slice(b"{\"k\":[true,false,null,-1.5e+3,\"\\\"\\\\\\/\\b\\f\\n\\r\\t\\u0041\"]}");
+    deep.extend(std::iter::repeat(b']').take(14));
+    deep.push(b'\n');
+    docs.push(("v", deep.clone()));
+    docs.push(("f", deep));
+    let mut many = b"{".to_vec();
+    for i in 0..40 {
+        many.extend_from_slice(format!("\"a\":{},\"k{}\" : \"v{}\" ,", i, i, i).as_bytes());
+    }
+    many.extend_from_slice(b"\"b\":\"end\"}\n{\"a\":1}");
+    docs.push(("s", many));
+    docs.push(("f", b"[1, 2 ,\"x\",[3],{\"a\":4}]  [5]\n[]".to_vec()));
+    docs.push(("f", b" [ \"a\" , \"b\" ] 7 [null]".to_vec()));
+    docs.push(("v", b"true false null 0 -0 1E5 \"\\ud800\\udc00\" \"\\udbff\\udfff\" \"\\uD83D\\uDE00\"".to_vec()));
+    docs.push(("v", b"tru".to_vec()));
+    docs.push(("v", b"\"\\ud83d\\u0041\"".to_vec()));
+    docs.push(("v", b"\"\\ud83d\\ude0".to_vec()));
+    docs.push(("s", b"{\"a\":1}{\"a\":2} {\"a\":3}\r\n{\"a\" : 4 , \"b\":\"\\n\"}".to_vec()));
+    docs.push(("s", b"{\"a\":1,}\n{,\"a\":2}".to_vec()));
+    docs.push(("s", b"{\"a\" 1}".to_vec()));
+    let mut out = vec![];
+    for (k, (mode, d)) in docs.iter().enumerate() {
+        for bs in [1usize, 2, 1024] {
+            // one chunking in the line (cut in the middle); the harness adds every split etc.
+            let n = d.len();
+            let sizes = if n >= 2 { vec![n / 2, 0, n - n / 2] } else { vec![n] };
+            out.push((
+                format!("C14 json {} {} {} {}", mode, bs, hex(d), show_list(&sizes)),
+                format!("op:json mode:{} fixed-block doc:{} bs:{} nt", mode, k, if bs > 5 { "large".to_string() } else { bs.to_string() }),
+            ));
+        }
+    }
+    out
+}
+
 // ------------------------------------------------------------------------------------------- CSV
 
 fn csv_schema(ncols: usize) -> SchemaRef {
@@ -1011,8 +1082,37 @@ fn csv_schema(ncols: usize) -> SchemaRef {
     Arc::new(Schema::new((0..ncols).map(|i| Field::new(format!("c{}", i), DataType::Utf8, true)).collect::<Vec<_>>()))
 }
 
+thread_local! {
+    /// reader options of the `csvo` op: `-` or tokens joined by `_`:
+    /// d<byte> delimiter, q<byte> quote, e<byte> escape, t<byte> terminator, c<byte> comment,
+    /// T truncated_rows, V header_validation, b<start>:<end> bounds, p<i>.<j>… projection
+    static CSV_OPTS: std::cell::RefCell<String> = std::cell::RefCell::new("-".to_string());
+}
+
 fn csv_builder(bs: usize, header: bool, ncols: usize) -> arrow_csv::ReaderBuilder {
-    arrow_csv::ReaderBuilder::new(csv_schema(ncols)).with_batch_size(bs).with_header(header)
+    let mut b = arrow_csv::ReaderBuilder::new(csv_schema(ncols)).with_batch_size(bs).with_header(header);
+    let opts = CSV_OPTS.with(|o| o.borrow().clone());
+    if opts != "-" {
+        for tok in opts.split('_') {
+            let (k, v) = tok.split_at(1);
+            b = match k {
+                "d" => b.with_delimiter(v.parse().unwrap()),
+                "q" => b.with_quote(v.parse().unwrap()),
+                "e" => b.with_escape(v.parse().unwrap()),
+                "t" => b.with_terminator(v.parse().unwrap()),
+                "c" => b.with_comment(v.parse().unwrap()),
+                "T" => b.with_truncated_rows(true),
+                "V" => b.with_header_validation(true),
+                "b" => {
+                    let (a, z) = v.split_once(':').unwrap();
+                    b.with_bounds(a.parse().unwrap(), z.parse().unwrap())
+                }
+                "p" => b.with_projection(v.split('.').map(|x| x.parse().unwrap()).collect()),
+                _ => panic!("bad csv option"),
+            };
+        }
+    }
+    b
 }
 
 /// the documented push loop (see `arrow_csv::reader::Decoder`), driven by a chunk list
@@ -1266,6 +1366,100 @@ fn gen_csv(rng: &mut Rng) -> (String, String) {
     (format!("C14 csv {} {} {} {} {}", bs, header as u8, ncols, hex(&out), show_list(&sizes)), tags.join(" "))
 }
 
+/// `C14 csvo <opts> <batch_size> <header> <ncols> <hex> <chunks>`: reader options (oracle only)
+fn run_csvo(t: &[&str], fails: &mut Vec<(String, String)>) -> String {
+    CSV_OPTS.with(|o| *o.borrow_mut() = t[2].to_string());
+    let t2: Vec<&str> = vec![t[0], "csv", t[3], t[4], t[5], t[6], t[7]];
+    let a = std::panic::catch_unwind(std::panic::AssertUnwindSafe(|| run_csv(&t2, fails)));
+    CSV_OPTS.with(|o| *o.borrow_mut() = "-".to_string());
+    a.unwrap_or_else(|_| "PANIC".into())
+}
+
+/// fixed block of option × content combinations (same in every run) and random ones
+fn gen_csvo(rng: &mut Rng, fixed: Option<usize>) -> (String, String) {
+    // (options, ncols, header, content)
+    let table: &[(&str, usize, bool, &[u8])] = &[
+        ("d59", 2, false, b"a;b\n\"x;y\";z\r\nlast;row"),
+        ("d9", 3, false, b"a\tb\tc\n1\t\t3\n"),
+        ("q39", 2, false, b"'a,b',c\n'it''s',d\n"),
+        ("e92", 2, false, b"\"a\\\"b\",c\n\"x\\\\\",y\n\"p\\nq\",r\n"),
+        ("e92_q39", 1, false, b"'a\\'b'\n'c'\n"),
+        ("t124", 2, false, b"a,b|c,d|\"e|f\",g|h,i"),
+        ("t59_d44", 2, false, b"a,b;c,d;;e,f;"),
+        ("c35", 2, false, b"#comment,line\na,b\n# another\r\nc,d\n#tail"),
+        ("c35", 1, true, b"h\n#x\na\n#y\nb\n"),
+        ("T", 3, false, b"a,b,c\nd\ne,f\n\ng,h,i\n"),
+        ("T", 2, true, b"h1,h2\na\nb,c\n"),
+        ("V", 2, true, b"c0,c1\na,b\nc,d\n"),
+        ("V", 2, true, b"c0,wrong\na,b\n"),
+        ("b1:3", 1, false, b"r0\nr1\nr2\nr3\nr4\n"),
+        ("b0:2", 2, true, b"h,h\na,b\nc,d\ne,f\n"),
+        ("b2:9", 1, false, b"r0\r\nr1\r\nr2\r\nr3"),
+        ("p1", 3, false, b"a,b,c\nd,e,f\n"),
+        ("p2.0", 3, true, b"x,y,z\n1,2,3\n\"4\n4\",5,6\n"),
+        ("d124_q39_e92_c33", 2, false, b"!c|c\n'a|b'|'c\\'d'\ne|f\r\n"),
+        ("T_c35_b1:4", 2, false, b"a\n#c\nb,c\nd\ne,f\ng\n"),
+        ("-", 1, false, b"\"\xef\xbb\xbf\"\n"),
+        ("-", 2, true, b"\"h\r\n1\",h2\r\n\"a\"\"b\",\"\"\r\n"),
+    ];
+    let mut tags = vec!["op:csvo".to_string()];
+    let (opts, ncols, header, content): (String, usize, bool, Vec<u8>) = match fixed {
+        Some(k) => {
+            let e = &table[k % table.len()];
+            tags.push("fixed-block".into());
+            (e.0.to_string(), e.1, e.2, e.3.to_vec())
+        }
+        None => {
+            let e = rng.pick(table);
+            let mut c = e.3.to_vec();
+            // repeat / mutate
+            if rng.bool() {
+                let c2 = c.clone();
+                c.extend_from_slice(b"\n");
+                c.extend_from_slice(&c2);
+            }
+            match rng.below(5) {
+                0 if !c.is_empty() => {
+                    let cut = rng.usize(c.len());
+                    c.truncate(cut);
+                    tags.push("mut:truncated".into());
+                }
+                1 if !c.is_empty() => {
+                    let i = rng.usize(c.len());
+                    c[i] = *rng.pick(&[b'"', b',', b'\n', b'\r', b'\\', b'#', b';', b'|', b'\'']);
+                    tags.push("mut:corrupt".into());
+                }
+                _ => {}
+            }
+            (e.0.to_string(), e.1, e.2, c)
+        }
+    };
+    for tok in opts.split('_') {
+        tags.push(format!("opt:{}", &tok[..1]));
+    }
+    let bs = match fixed {
+        Some(k) => [1usize, 2, 3, 1024][(k / table.len()) % 4],
+        None => *rng.pick(&[1usize, 2, 3, 5, 1024]),
+    };
+    let n = content.len();
+    let mut cuts: Vec<usize> = (0..rng.usize(6)).map(|_| rng.usize(n + 1)).filter(|&c| c > 0 && c < n).collect();
+    cuts.sort();
+    cuts.dedup();
+    let mut sizes = vec![];
+    let mut p = 0;
+    for c in cuts {
+        sizes.push(c - p);
+        p = c;
+    }
+    sizes.push(n - p);
+    sizes.retain(|&x| x > 0);
+    if sizes.len() >= 2 {
+        tags.push("nt".into());
+    }
+    tags.push(format!("bs:{}", if bs > 5 { "large".to_string() } else { bs.to_string() }));
+    (format!("C14 csvo {} {} {} {} {} {}", opts, bs, header as u8, ncols, hex(&content), show_list(&sizes)), tags.join(" "))
+}
+
 // ------------------------------------------------------------------------------------------ main
 
 fn run_case(line: &str) -> (String, Vec<(String, String)>) {
@@ -1282,6 +1476,7 @@ fn run_case(line: &str) -> (String, Vec<(String, String)>) {
                 "ipcx" => run_ipcx(&t, fails_ref),
                 "json" => run_json(&t, fails_ref),
                 "csv" => run_csv(&t, fails_ref),
+                "csvo" => run_csvo(&t, fails_ref),
                 _ => "bad-op".into(),
             }
         })
@@ -1321,9 +1516,18 @@ fn main() {
         }
     } else {
         let mut rng = Rng::new(args.seed ^ 0xC14);
+        // fixed deterministic blocks (identical in every run), then the random cases
+        for (line, tags) in json_fixed_block() {
+            emit(&mut sink, line, tags);
+        }
+        let mut fixed_rng = Rng::new(0xC14F);
+        for k in 0..88 {
+            let (line, tags) = gen_csvo(&mut fixed_rng, Some(k));
+            emit(&mut sink, line, tags);
+        }
         let n = n_cases(&args, 3000, 60000);
-        for _ in 0..n {
-            let (line, tags) = gen_case(&mut rng);
+        for i in 0..n {
+            let (line, tags) = if i % 12 == 11 { gen_csvo(&mut rng, None) } else { gen_case(&mut rng) };
             emit(&mut sink, line, tags);
         }
     }
